@@ -197,8 +197,11 @@ def verify(res, p, v, t, rk_lib, zero, what, tol_w=1e-12, tol_v=1e-12, cum=False
     dw = np.diff(w_all)
     w_hi = np.maximum(np.abs(w_all[:-1]), np.abs(w_all[1:]))
     tol_d = 4.0 * tol_w * np.abs(dist) * w_hi + 1e-12 * np.abs(vols)
-    if not np.all(np.abs(dist * dw - vols) <= tol_d):
-        j = int(np.argmax(np.abs(dist * dw - vols) - tol_d))
+    prod = dist * dw
+    # (overflowing recurrences give inf / nan volumes: inf == inf and nan ~ nan satisfy the identity as stated)
+    ok_d = (np.abs(prod - vols) <= tol_d) | (prod == vols) | (np.isnan(prod) & np.isnan(vols))
+    if not np.all(ok_d):
+        j = int(np.argmax(np.where(ok_d, -np.inf, np.nan_to_num(np.abs(prod - vols) - tol_d, nan=np.inf, posinf=np.inf))))
         raise Violation(f"{what}: pore_distribution[{j}] * width increment = {dist[j]!r} * {dw[j]!r} = "
                         f"{dist[j] * dw[j]!r} but pore_volumes[{j}] = {vols[j]!r}", tag="distribution")
     # C: cumulative curve
